@@ -169,6 +169,12 @@ func c06Def[X any](site string, routes func(*X) []c06Route, fresh func() c06Obj,
 
 func one(o c06Obj) []c06Route { return []c06Route{{obj: o}} }
 
+// c06Rejects stands for a value the library refused to build although it is inside the type's domain: its Marshal reports that.
+type c06Rejects struct{ why string }
+
+func (r *c06Rejects) Marshal() ([]byte, error)      { return nil, fmt.Errorf("%s", r.why) }
+func (r *c06Rejects) Unmarshal([]byte) (int, error) { return 0, fmt.Errorf("%s", r.why) }
+
 func arr16(b []byte) (a [16]byte) { copy(a[:], b); return }
 func arr4(b []byte) (a [4]byte)   { copy(a[:], b); return }
 func arr3(b []byte) (a [3]byte)   { copy(a[:], b); return }
@@ -233,7 +239,18 @@ var c06Codecs = map[string]*c06Codec{
 			g := h.Guarded(x.Buffer)
 			s2 := types.NewSMB_STRING(g)
 			s2.SetBufferFormat(types.UCHAR(x.BufferFormat))
-			return []c06Route{{obj: s}, {name: "buffer-with-spare-capacity", obj: s2, guard: g}}
+			s3 := &types.SMB_STRING{}
+			s3.SetBufferFormat(types.UCHAR(x.BufferFormat))
+			if err := s3.SetString(string(x.Buffer)); err != nil { // every in-domain length (0..65535) can be set
+				s3 = nil
+			}
+			rts := []c06Route{{obj: s}, {name: "buffer-with-spare-capacity", obj: s2, guard: g}}
+			if s3 != nil {
+				rts = append(rts, c06Route{name: "SetString", obj: s3})
+			} else {
+				rts = append(rts, c06Route{name: "SetString-rejected", site: "types.SMB_STRING.SetString", obj: &c06Rejects{"SetString refused an in-domain string"}})
+			}
+			return rts
 		},
 		func() c06Obj { return &types.SMB_STRING{} },
 		func(o c06Obj) *xStr { s := o.(*types.SMB_STRING); return &xStr{int(s.BufferFormat), h.Bytes(s.Buffer)} },
